@@ -1122,11 +1122,12 @@ Proof.
     subst. rewrite String.eqb_refl in E2. discriminate.
 Qed.
 
-Lemma fresh_form fuel a : forall cand, exists k, fresh_row_name fuel a cand = cand +++ underscores k.
+Lemma fresh_form fuel a obj : forall cand,
+  exists k, fresh_row_name fuel a obj cand = cand +++ underscores k.
 Proof.
   induction fuel as [|f IH]; intro cand; cbn [fresh_row_name].
   - exists O. cbn [underscores]. rewrite sapp_nil_r. reflexivity.
-  - destruct (has_key cand a).
+  - destruct (has_key cand a || (cand =? obj)).
     + destruct (IH (cand +++ "_")) as [k E]. exists (S k). rewrite E. cbn [underscores].
       rewrite sapp_assoc. reflexivity.
     + exists O. cbn [underscores]. rewrite sapp_nil_r. reflexivity.
@@ -1147,33 +1148,48 @@ Proof.
     destruct (p y); cbn [List.length]; lia.
 Qed.
 
-Definition cnt {V} (L : nat) (a : list (string * V)) : nat :=
-  List.length (filter (fun k => Nat.leb L (String.length k)) (map fst a)).
+(* the names the candidate must avoid: the objective row and the keys of the table *)
+Definition avoid (a : list (string * list (string * num))) (obj : string) : list string :=
+  obj :: map fst a.
+Definition cnt (L : nat) (l : list string) : nat :=
+  List.length (filter (fun k => Nat.leb L (String.length k)) l).
 
-Lemma fresh_not_key_aux (a : list (string * list (string * num))) fuel : forall cand,
-  (cnt (String.length cand) a < fuel)%nat -> ~ In (fresh_row_name fuel a cand) (map fst a).
+Lemma avoid_test a obj cand : has_key cand a || (cand =? obj) = true <-> In cand (avoid a obj).
+Proof.
+  unfold avoid. cbn [In]. rewrite orb_true_iff, has_key_in, String.eqb_eq.
+  split; intros [H|H]; auto.
+Qed.
+
+Lemma fresh_not_key_aux a obj fuel : forall cand,
+  (cnt (String.length cand) (avoid a obj) < fuel)%nat ->
+  ~ In (fresh_row_name fuel a obj cand) (avoid a obj).
 Proof.
   induction fuel as [|f IH]; intros cand H; [lia|]. cbn [fresh_row_name].
-  destruct (has_key cand a) eqn:E.
-  - apply IH. rewrite sapp_length. cbn [String.length]. apply has_key_in in E.
-    assert (L : (cnt (String.length cand + 1) a < cnt (String.length cand) a)%nat).
+  destruct (has_key cand a || (cand =? obj)) eqn:E.
+  - apply IH. rewrite sapp_length. cbn [String.length]. apply avoid_test in E.
+    assert (L : (cnt (String.length cand + 1) (avoid a obj) < cnt (String.length cand) (avoid a obj))%nat).
     { unfold cnt. apply (filter_length_lt _ _ _ cand).
       - intros y Hy. apply Nat.leb_le in Hy. apply Nat.leb_le. lia.
       - exact E.
       - apply Nat.leb_le. lia.
       - apply Nat.leb_gt. lia. }
     lia.
-  - intro Hi. apply has_key_in in Hi. congruence.
+  - intro Hi. apply avoid_test in Hi. congruence.
 Qed.
-Lemma fresh_not_key a cand :
-  ~ In (fresh_row_name (S (List.length a)) a cand) (map fst a).
+(* with one more unit of fuel than there are names to avoid, the result avoids them all *)
+Lemma fresh_not_key a obj cand :
+  let new := fresh_row_name (S (S (List.length a))) a obj cand in
+  ~ In new (map fst a) /\ new <> obj.
 Proof.
-  apply fresh_not_key_aux. unfold cnt.
-  assert (H : forall (p : string -> bool) l, (List.length (filter p l) <= List.length l)%nat).
-  { intros p l. induction l as [|y l IH]; cbn [filter List.length]; [lia|].
-    destruct (p y); cbn [List.length]; lia. }
-  specialize (H (fun k => Nat.leb (String.length cand) (String.length k)) (map fst a)).
-  rewrite map_length in H. lia.
+  cbv zeta.
+  assert (N : ~ In (fresh_row_name (S (S (List.length a))) a obj cand) (avoid a obj)).
+  { apply fresh_not_key_aux. unfold cnt.
+    assert (H : forall (p : string -> bool) l, (List.length (filter p l) <= List.length l)%nat).
+    { intros p l. induction l as [|y l IH]; cbn [filter List.length]; [lia|].
+      destruct (p y); cbn [List.length]; lia. }
+    specialize (H (fun k => Nat.leb (String.length cand) (String.length k)) (avoid a obj)).
+    unfold avoid in H at 2. cbn [List.length] in H. rewrite map_length in H. lia. }
+  unfold avoid in N. cbn [In] in N. split; [tauto|]. intro E. apply N. left. symmetry. exact E.
 Qed.
 
 Definition tt (r : mrows) (x : string) : bool * bool * bool :=
@@ -1217,7 +1233,8 @@ Lemma range_step_tables m row rg entries :
   exists m' new ty1 ty2 b2,
     add_range m (row, rg) = Ok m' /\
     range_rule (row_type r row) (rhs_of (r_b r) row) rg = Some (ty1, ty2, b2) /\
-    ~ In new (map fst (r_a r)) /\ (exists k, new = (row +++ "_") +++ underscores k) /\
+    ~ In new (map fst (r_a r)) /\ new <> m_obj m /\
+    (exists k, new = (row +++ "_") +++ underscores k) /\
     (m_name m' = m_name m /\ m_max m' = m_max m /\ m_obj m' = m_obj m /\ m_c m' = m_c m /\
      m_cols m' = m_cols m) /\
     r_a (m_rows m') = r_a r ++ [(new, entries)] /\
@@ -1227,8 +1244,8 @@ Lemma range_step_tables m row rg entries :
 Proof.
   intros r (Hnd & Htt & Hkeys) Hl Hrg.
   unfold add_range. fold r. apply qeqb_neq in Hrg. rewrite Hrg, Hl.
-  set (new := fresh_row_name (S (List.length (r_a r))) (r_a r) (row +++ "_")).
-  assert (Hfresh : ~ In new (map fst (r_a r))) by apply fresh_not_key.
+  set (new := fresh_row_name (S (S (List.length (r_a r)))) (r_a r) (m_obj m) (row +++ "_")).
+  destruct (fresh_not_key (r_a r) (m_obj m) (row +++ "_")) as [Hfresh Hnobj]. fold new in Hfresh, Hnobj.
   assert (Hform : exists k, new = (row +++ "_") +++ underscores k) by apply fresh_form.
   assert (Hrowkey : In row (map fst (r_a r))) by (eapply lookup_in_keys; exact Hl).
   assert (Hrn : (row =? new) = false).
@@ -1326,11 +1343,12 @@ Lemma ranges_view es : forall m,
      m_cols m' = m_cols m) /\
     rview (m_rows m') = map (upd_all es) (rview (m_rows m)) ++ news /\
     Forall2 (fun e nv => exists v, In v (rview (m_rows m)) /\ gen_of e v nv) es news /\
+    Forall (fun nv => vname nv <> m_obj m) news /\
     (forall x, ~ In x (map vname news) -> rhs_of (r_b (m_rows m')) x = rhs_of (r_b (m_rows m)) x).
 Proof.
   induction es as [|[row rg] es IH]; intros m HRI Hnd Hes.
   - exists m, []. cbn [add_ranges]. split; [reflexivity|]. split; [exact HRI|].
-    split; [repeat split; reflexivity|]. split; [|split; [constructor|reflexivity]].
+    split; [repeat split; reflexivity|]. split; [|split; [constructor|split; [constructor|reflexivity]]].
     rewrite app_nil_r. rewrite <- (map_id (rview (m_rows m))) at 1. apply map_ext. intro v. reflexivity.
   - cbn [add_ranges].
     destruct (Hes (row, rg) (or_introl eq_refl)) as [Hk Hrg]. cbn [fst snd] in Hk, Hrg.
@@ -1339,7 +1357,7 @@ Proof.
       exfalso. apply has_key_in in Hk. unfold has_key in Hk. rewrite E in Hk. discriminate. }
     destruct Hl as [entries Hl].
     destruct (range_step_tables m row rg entries HRI Hl Hrg)
-      as (m1 & new & ty1 & ty2 & b2 & Ha & Hrule & Hfresh & Hform & Hframe & Hra & Hrhs & Hrhsn & Htt1).
+      as (m1 & new & ty1 & ty2 & b2 & Ha & Hrule & Hfresh & Hnobj & Hform & Hframe & Hra & Hrhs & Hrhsn & Htt1).
     rewrite Ha. cbn [rbind].
     destruct HRI as (Hnd0 & Htt0 & Hkeys0).
     destruct (range_rule_types _ _ _ _ _ _ Hrule) as [Hty1 Hty2].
@@ -1376,7 +1394,7 @@ Proof.
     assert (Hes' : forall e, In e es -> In (fst e) (map fst (r_a (m_rows m1))) /\ snd e <> 0).
     { intros e He. destruct (Hes e (or_intror He)) as [H1 H2]. split; [|exact H2].
       rewrite Hra, map_app. apply in_or_app. left. exact H1. }
-    destruct (IH m1 HRI1 Hnd' Hes') as (m' & news & Hadd & HRI' & Hframe' & Hview' & Hgen' & Hrhs').
+    destruct (IH m1 HRI1 Hnd' Hes') as (m' & news & Hadd & HRI' & Hframe' & Hview' & Hgen' & Hno' & Hrhs').
     exists m', ((new, entries, ty2, b2) :: news).
     destruct Hframe as (F1 & F2 & F3 & F4 & F5). destruct Hframe' as (G1 & G2 & G3 & G4 & G5).
     assert (Hnew_es : lookup new es = None).
@@ -1384,7 +1402,7 @@ Proof.
       apply Hfresh. rewrite <- E. apply (Hes e (or_intror He)). }
     split; [exact Hadd|]. split; [exact HRI'|].
     split; [repeat split; congruence|].
-    split; [|split].
+    split; [|split; [|split]].
     + rewrite Hview', Hview1, map_app, map_map. cbn [map]. rewrite <- app_assoc. cbn [app].
       f_equal; [|f_equal].
       * apply map_ext. intro v. unfold upd_all at 2 3. cbn [lookup].
@@ -1412,6 +1430,7 @@ Proof.
            rewrite Ev' in Gn, Ge, Gr. exists v. split; [exact Hv|]. unfold gen_of. tauto.
         -- exfalso. apply Hfresh. subst v1. cbn [vname fst] in Gn. rewrite Gn.
            apply (Hes e (or_intror He)).
+    + constructor; [exact Hnobj|]. rewrite <- F3. exact Hno'.
     + intros x Hx. cbn [map vname fst In] in Hx. rewrite Hrhs'; [apply Hrhs|]; intro; apply Hx; auto.
 Qed.
 
@@ -1573,6 +1592,7 @@ Section Tables.
       RI (m_rows m4) /\
       rview (m_rows m4) = map orig_view (nonN rows) ++ news /\
       Forall2 (fun e nv => exists r, In r (nonN rows) /\ gen_of e (view0 r) nv) (range_entries M) news /\
+      Forall (fun nv => vname nv <> objrow) news /\
       (forall x, ~ In x (map vname news) -> rhs_of (r_b (m_rows m4)) x = rhs_of (rhs_entries M) x).
   Proof.
     destruct before_ranges as [Hc Hr].
@@ -1584,13 +1604,13 @@ Section Tables.
       apply (in_map sr_name). apply nonN_in. auto. }
     destruct (ranges_view (range_entries M) m3 RI_m3
                 (opt_rows_nodup sr_range rows Hnd) Hes)
-      as (m4 & news & Hadd & HRI & Hframe & Hview & Hgen & Hrhs).
+      as (m4 & news & Hadd & HRI & Hframe & Hview & Hgen & Hno & Hrhs).
     exists m4, news. unfold typed_tables. fold rows cols objrow. cbv zeta. rewrite Hc. cbn [rbind].
     rewrite Hr, Hadd. cbn [rbind].
     destruct Hframe as (F1 & F2 & F3 & F4 & F5).
     split; [rewrite F5; reflexivity|].
     split; [rewrite F1, F2, F3, F4, F5; repeat split; reflexivity|].
-    split; [exact HRI|]. split; [|split].
+    split; [exact HRI|]. split; [|split; [|split; [exact Hno|]]].
     - rewrite Hview, rview_m3, map_map. f_equal. apply map_ext_in. intros r Hr0.
       unfold upd_all, orig_view. cbn [vname view0 fst]. rewrite range_entries_eq.
       rewrite (opt_rows_lookup sr_range (lp_rows M) r Hnd) by (apply nonN_in in Hr0; tauto).
@@ -2146,8 +2166,7 @@ Section Final.
   Hypothesis Hrows : NoDup (objrow :: map sr_name rows).
   Hypothesis Hcols : NoDup names.
   Hypothesis Hcoefs : Forall (col_wf M) cols.
-  Hypothesis Hrng : forall r rg, In r rows -> sr_range r = Some rg ->
-    sr_ty r <> RN /\ rg <> 0 /\ starts_with (sr_name r +++ "_") objrow = false.
+  Hypothesis Hrng : forall r rg, In r rows -> sr_range r = Some rg -> sr_ty r <> RN /\ rg <> 0.
   Hypothesis Hname : trim (lp_name M) = lp_name M.
   Hypothesis Hvids : ids_okb (fun x : string => x) VAR_PREFIX names = true.
   Hypothesis Hcids : range_entries M <> [] \/ ids_okb sr_name CONSTR_PREFIX (nonN rows) = true.
@@ -2202,10 +2221,8 @@ Section Final.
   Theorem load_represents :
     exists I, (let? m := typed_parse M in convert m) = Ok I /\ represents I (meaning M).
   Proof.
-    assert (Hrng' : forall r rg, In r rows -> sr_range r = Some rg -> sr_ty r <> RN /\ rg <> 0).
-    { intros r rg Hr R. destruct (Hrng r rg Hr R) as (H1 & H2 & _). auto. }
-    destruct (tables_closed M Hobj Hrows Hcols Hcoefs Hrng')
-      as (m4 & news & Htt & (F1 & F2 & F3 & F4 & F5) & HRI & Hview & Hgen & Hrhs).
+    destruct (tables_closed M Hobj Hrows Hcols Hcoefs Hrng)
+      as (m4 & news & Htt & (F1 & F2 & F3 & F4 & F5) & HRI & Hview & Hgen & Hnoobj & Hrhs).
     assert (Hnd : NoDup (map sr_name rows)) by (inversion Hrows; assumption).
     unfold typed_parse. rewrite Htt. cbn [rbind].
     fold cb. 
@@ -2223,9 +2240,7 @@ Section Final.
       exists r, (snd e), k. split; [exact Hr|]. split; [exact Er|]. split; [rewrite Gn; exact Gk|exact Ge]. }
     assert (Hobjnew : ~ In objrow (map vname news)).
     { intro Hi. apply in_map_iff in Hi. destruct Hi as (nv & E & Hnv).
-      destruct (Hnews nv Hnv) as (r & rg & k & Hr & R & En & _).
-      destruct (Hrng r rg Hr R) as (_ & _ & S). rewrite <- E, En in S.
-      unfold starts_with in S. rewrite strip_prefix_app in S. discriminate. }
+      rewrite Forall_forall in Hnoobj. apply (Hnoobj nv Hnv). exact E. }
     (* --- decision variables --- *)
     destruct (tagged_spec (fun x : string => x) VAR_PREFIX names) as (Hsnd & Hfst & Hcan);
       [rewrite map_id; exact Hcols|exact Hvids|].
@@ -2397,8 +2412,7 @@ Definition col_wfb (M : lp_model) (c : scol) : bool :=
   forallb (fun p => smem (fst p) (lp_objrow M :: map sr_name (lp_rows M))) (sc_coefs c).
 Definition rng_okb (M : lp_model) (r : srow) : bool :=
   match sr_range r with
-  | Some rg => negb (rty_eqb (sr_ty r) RN) && negb (qeqb rg 0) &&
-               negb (starts_with (sr_name r +++ "_") (lp_objrow M))
+  | Some rg => negb (rty_eqb (sr_ty r) RN) && negb (qeqb rg 0)
   | None => true
   end.
 Definition var_nonanb (M : lp_model) (c : scol) : bool :=
@@ -2449,12 +2463,10 @@ Proof.
     + apply snodupb_NoDup. exact W2.
     + intros p Hp. rewrite forallb_forall in W3. apply smem_In. apply W3. exact Hp.
   - intros r rg Hr R. rewrite forallb_forall in Wrng. specialize (Wrng r Hr). unfold rng_okb in Wrng.
-    rewrite R in Wrng. apply andb_true_iff in Wrng. destruct Wrng as [Wr W3].
-    apply andb_true_iff in Wr. destruct Wr as [W1 W2].
-    apply negb_true_iff in W1, W2, W3. split; [|split].
+    rewrite R in Wrng. apply andb_true_iff in Wrng. destruct Wrng as [W1 W2].
+    apply negb_true_iff in W1, W2. split.
     + intro E. rewrite E in W1. discriminate.
     + apply qeqb_neq. exact W2.
-    + exact W3.
   - apply String.eqb_eq. exact Wname.
   - exact Wvid.
   - apply orb_true_iff in Wcid. destruct Wcid as [H|H]; [left|right; exact H].
@@ -2534,6 +2546,27 @@ Definition ex_model_bad : lp_model :=
 Example ex_model_bad_typed :
   wf_lex ex_model_bad = true /\ typed_parse ex_model_bad = Err (EUnknownRowName "nosuch").
 Proof. vm_compute. split; reflexivity. Qed.
+
+(* the objective row is called like the row RANGES would generate for [lim]: the generated row
+   steps aside ("lim__"), and the objective constant is the file's (- RHS of the objective row) *)
+Definition ex_model_clash : lp_model :=
+  {| lp_name := "clash"; lp_sense := None; lp_objrow := "lim_"; lp_objconst := qz 7;
+     lp_rows := [ {| sr_name := "lim"; sr_ty := RL; sr_rhs := Some (qz 10); sr_range := Some (qz 4) |} ];
+     lp_cols := [ {| sc_name := "x"; sc_int := false; sc_coefs := [("lim_", qz 1); ("lim", qz 2)] |} ];
+     lp_bounds := [] |}.
+Definition ex_layout_plain : layout :=
+  {| ly_five := false; ly_comments := false; ly_blanks := false; ly_inline := true; ly_tabs := false |}.
+Example ex_model_clash_loaded :
+  wf_model ex_model_clash = true /\
+  rhs_entries ex_model_clash = [("lim_", qz (-7)); ("lim", qz 10)] /\
+  match load_lines (render ex_layout_plain ex_model_clash) with
+  | Ok J =>
+      lin_of (in_obj J) = Some ([(0%N, qz 1)], qz 7) /\
+      map cons_label (in_cons J) = ["lim"; "lim__"] /\
+      match_spec J (meaning ex_model_clash) = None
+  | Err _ => False
+  end.
+Proof. vm_compute. repeat split; reflexivity. Qed.
 
 Print Assumptions parse_render_typed.
 Print Assumptions load_render_represents.
